@@ -205,14 +205,100 @@ func SortStrings(x []string) {
 	}
 }
 
-// ScanSentinel models fmt.Sscanf(line, "sentinel %x", dst) for a line that starts with
-// "sentinel " (the only use in the repository): white space is skipped, then one or more
-// hex digits are read; more than 64 bits of value is an error. ASCII input.
+// ---- fmt.Sscanf models (fmt/scan.go: advance, SkipSpace, scanInt, scanUint), for the two
+// formats the code under test uses. Input is read as UTF-8 runes; "space" is fmt's
+// isSpace (Unicode White_Space); a newline is never skipped by a verb. ----
+
+// scanSpaceAt returns the byte length of the space rune at s[i] (0: not a space). A
+// newline counts as a space of length 1; callers that must not skip it check first.
+func scanSpaceAt(s string, i int) int {
+	c := s[i]
+	switch c {
+	case '\t', '\n', '\v', '\f', '\r', ' ':
+		return 1
+	case 0xC2:
+		if i+1 < len(s) && (s[i+1] == 0x85 || s[i+1] == 0xA0) {
+			return 2
+		}
+	case 0xE1:
+		if i+2 < len(s) && s[i+1] == 0x9A && s[i+2] == 0x80 {
+			return 3
+		}
+	case 0xE2:
+		if i+2 < len(s) {
+			d, e := s[i+1], s[i+2]
+			if d == 0x80 && (e >= 0x80 && e <= 0x8A || e == 0xA8 || e == 0xA9 || e == 0xAF) {
+				return 3
+			}
+			if d == 0x81 && e == 0x9F {
+				return 3
+			}
+		}
+	case 0xE3:
+		if i+2 < len(s) && s[i+1] == 0x80 && s[i+2] == 0x80 {
+			return 3
+		}
+	}
+	return 0
+}
+
+// scanSkipSpace models ss.SkipSpace for Sscanf: spaces are skipped, a newline is an error.
+func scanSkipSpace(s string, i int) (int, bool) {
+	for i < len(s) {
+		if s[i] == '\n' {
+			return i, false
+		}
+		n := scanSpaceAt(s, i)
+		if n == 0 {
+			break
+		}
+		i += n
+	}
+	return i, true
+}
+
+var (
+	errScan    = &StrError{S: "input does not match format"}
+	errScanEOF = &StrError{S: "unexpected EOF"}
+	errScanNL  = &StrError{S: "unexpected newline"}
+	errScanInt = &StrError{S: "expected integer"}
+	errScanOvf = &StrError{S: "value out of range"}
+)
+
+// ScanSentinel models fmt.Sscanf(line, "sentinel %x", &v) with v a *uint64.
 func ScanSentinel(line string, dst *uint64) (int, error) {
-	i := len("sentinel")
-	isSp := func(c byte) bool { return c == ' ' || c == '\t' || c == '\r' || c == '\v' || c == '\f' }
-	for i < len(line) && isSp(line[i]) {
-		i++
+	const lit = "sentinel"
+	i := 0
+	for ; i < len(lit); i++ {
+		if i >= len(line) {
+			return 0, errScanEOF
+		}
+		if line[i] != lit[i] {
+			return 0, errScan
+		}
+	}
+	// the space of the format: one or more spaces, or end of input; not a newline
+	if i < len(line) {
+		if line[i] == '\n' {
+			return 0, &StrError{S: "newline in input does not match format"}
+		}
+		if scanSpaceAt(line, i) == 0 {
+			return 0, &StrError{S: "expected space in input to match format"}
+		}
+		for i < len(line) && line[i] != '\n' {
+			n := scanSpaceAt(line, i)
+			if n == 0 {
+				break
+			}
+			i += n
+		}
+	}
+	var ok bool
+	if i, ok = scanSkipSpace(line, i); !ok {
+		return 0, errScanNL
+	}
+	if i >= len(line) {
+		return 0, errScanEOF
 	}
 	start := i
 	var v uint64
@@ -230,14 +316,18 @@ func ScanSentinel(line string, dst *uint64) (int, error) {
 			goto done
 		}
 		if v>>60 != 0 {
-			return 0, &StrError{"integer overflow"}
+			// keep consuming digits: the whole token is parsed, then found out of range
+			for i < len(line) && (line[i] >= '0' && line[i] <= '9' || line[i] >= 'a' && line[i] <= 'f' || line[i] >= 'A' && line[i] <= 'F') {
+				i++
+			}
+			return 0, errScanOvf
 		}
 		v = v<<4 | d
 		i++
 	}
 done:
 	if i == start {
-		return 0, &StrError{"expected integer"}
+		return 0, errScanInt
 	}
 	*dst = v
 	return 1, nil
@@ -309,46 +399,66 @@ func GoVersionREFind(s string) []string {
 	return []string{s, s[1:p]}
 }
 
-// ScanSemver models fmt.Sscanf(s, "v%d.%d.%d", &a, &b, &c): three decimal integers
-// (optionally signed) separated by dots after a leading 'v'; trailing text is ignored.
+// ScanSemver models fmt.Sscanf(s, "v%d.%d.%d", &a, &b, &c) with *int operands: each %d
+// skips spaces (not newlines), takes an optional sign and at least one decimal digit;
+// the literals must match exactly; text after the third number is ignored.
 func ScanSemver(s string, a, b, c *int) (int, error) {
 	i := 0
-	if i >= len(s) || s[i] != 'v' {
-		return 0, errScan
-	}
-	i++
 	n := 0
 	for k, dst := range []*int{a, b, c} {
-		if k > 0 {
-			if i >= len(s) || s[i] != '.' {
-				return n, errScan
-			}
-			i++
+		lit := byte('.')
+		if k == 0 {
+			lit = 'v'
+		}
+		if i >= len(s) {
+			return n, errScanEOF
+		}
+		if s[i] != lit {
+			return n, errScan
+		}
+		i++
+		var ok bool
+		if i, ok = scanSkipSpace(s, i); !ok {
+			return n, errScanNL
+		}
+		if i >= len(s) {
+			return n, errScanEOF
 		}
 		neg := false
-		if i < len(s) && (s[i] == '+' || s[i] == '-') {
+		if s[i] == '+' || s[i] == '-' {
 			neg = s[i] == '-'
 			i++
 		}
+		if i >= len(s) {
+			return n, errScanEOF
+		}
 		start := i
-		v := 0
+		var v uint64
+		ovf := false
 		for i < len(s) && s[i] >= '0' && s[i] <= '9' {
-			v = v*10 + int(s[i]-'0')
+			d := uint64(s[i] - '0')
+			if v > (1<<63)/10 || v*10+d > 1<<63 {
+				ovf = true
+			} else {
+				v = v*10 + d
+			}
 			i++
 		}
 		if i == start {
-			return n, errScan
+			return n, errScanInt
+		}
+		if ovf || (!neg && v == 1<<63) {
+			return n, errScanOvf
 		}
 		if neg {
-			v = -v
+			*dst = int(-int64(v))
+		} else {
+			*dst = int(v)
 		}
-		*dst = v
 		n++
 	}
 	return n, nil
 }
-
-var errScan = &StrError{S: "input does not match format"}
 
 // SortInterface models sort.Sort / sort.Stable with an insertion sort.
 func SortInterface(data interface {
@@ -399,4 +509,59 @@ func PoolPut(p *sync.Pool, x any) {
 		return
 	}
 	poolItems[p] = append(poolItems[p], x)
+}
+
+func CompareString(a, b string) int {
+	if a < b {
+		return -1
+	}
+	if a > b {
+		return 1
+	}
+	return 0
+}
+
+// ---- unicode predicates for Latin-1 (the unicode package's tables are not initialised
+// under the engine); beyond Latin-1 the path is reported as unsupported ----
+
+func latin1Letter(r rune) (letter, upper, lower bool) {
+	switch {
+	case 'A' <= r && r <= 'Z':
+		return true, true, false
+	case 'a' <= r && r <= 'z':
+		return true, false, true
+	case r == 0xAA || r == 0xBA:
+		return true, false, false
+	case r == 0xB5:
+		return true, false, true
+	case 0xC0 <= r && r <= 0xDE && r != 0xD7:
+		return true, true, false
+	case 0xDF <= r && r <= 0xFF && r != 0xF7:
+		return true, false, true
+	}
+	return false, false, false
+}
+
+func IsLetterRune(r rune) bool {
+	if uint32(r) > 0xFF {
+		Unsupported("unicode.IsLetter beyond Latin-1")
+	}
+	l, _, _ := latin1Letter(r)
+	return l
+}
+
+func IsUpperRune(r rune) bool {
+	if uint32(r) > 0xFF {
+		Unsupported("unicode.IsUpper beyond Latin-1")
+	}
+	_, u, _ := latin1Letter(r)
+	return u
+}
+
+func IsLowerRune(r rune) bool {
+	if uint32(r) > 0xFF {
+		Unsupported("unicode.IsLower beyond Latin-1")
+	}
+	_, _, l := latin1Letter(r)
+	return l
 }
